@@ -110,3 +110,16 @@ Definition filesinfo_case (c : nat * list fprop * option (list (str * bool * N))
   | None, None => true
   | _, _ => false
   end.
+
+(* ---- member loops: (is_tar, max_memory_size, REGULAR_TYPES, members as the library lists them, names for which
+   _should_skip_file said True, expected: Some indices read in order | None = encrypted error before any read) *)
+Definition natlist_eqb (a b : list nat) : bool := list_eqb Nat.eqb a b.
+Definition loop_case (c : bool * Z * list N * list amember * list str * option (list nat)) : bool :=
+  let '(is_tar, mm, REG, ms, skipped, want) := c in
+  let sk := fun n => mem_str n skipped in
+  let got := if is_tar then Some (tar_reads sk mm REG 0 ms) else zip_reads sk mm ms in
+  match got, want with
+  | Some a, Some b => natlist_eqb a b
+  | None, None => true
+  | _, _ => false
+  end.
